@@ -10,9 +10,10 @@
 (*            "prec"  two-operator shapes over a family of operator tables *)
 (*                    (every fixity x a grid of binding powers)            *)
 (***************************************************************************)
-EXTENDS YaeParser, YaeIO
+EXTENDS YaeDesugar, YaeIO
 
 VARIABLE st
+Map1S(L, Mk(_)) == [i \in 1..Len(L) |-> Mk(L[i])]
 Prod2(L1, L2, Mk(_, _)) ==
   [k \in 1..(Len(L1) * Len(L2)) |-> Mk(L1[((k - 1) \div Len(L2)) + 1], L2[((k - 1) % Len(L2)) + 1])]
 
@@ -100,10 +101,34 @@ NAShapes == <<X \o SP \o N_lt \o SP \o Y \o SP \o N_lt \o SP \o Z,
               N_bang \o SP \o X \o SP \o N_eqeq \o SP \o Y \o SP \o N_eqeq \o SP \o Z,
               X \o SP \o N_lt \o SP \o Y \o SP \o N_lt \o SP \o Z \o SP \o N_lt \o SP \o W \o SP \o N_oror \o SP \o W>>
 
+\* sugar in every operand position (C10): all short token strings over a sugar-rich alphabet, plus longer shapes
+SugarAlpha == <<<<120>>, <<49>>, N_plus, N_bang, N_lpar, N_rpar, N_lbr, N_rbr, N_comma, N_colon, N_question, N_dot, <<102>>>>
+RECURSIVE SugarN(_)
+SugarN(n) == IF n = 1 THEN [i \in 1..Len(SugarAlpha) |-> SugarAlpha[i]]
+             ELSE Prod2(SugarN(n - 1), SugarAlpha, LAMBDA p, a : p \o <<32>> \o a)
+RECURSIVE ArgList(_)
+ArgList(n) == IF n = 1 THEN <<97, 48, 32, 43, 32, 48>> ELSE ArgList(n - 1) \o <<44, 32, 97>> \o NatDigits(n - 1) \o <<32, 43, 32>> \o NatDigits(n - 1)
+SugarShapes ==
+  [n \in 1..10 |-> <<114, 46, 102, 40>> \o ArgList(n) \o <<41>>]                       \* r.f(a0 + 0, a1 + 1, ...)
+  \o <<<<120, 46, 102, 40, 121, 41, 40, 122, 41>>,                                        \* x.f(y)(z)
+       <<40, 103, 41, 40, 120, 41>>, <<40, 102, 40, 120, 41, 41, 40, 121, 41>>,            \* (g)(x)  (f(x))(y)
+       <<40, 99, 32, 63, 32, 102, 32, 58, 32, 103, 41, 40, 120, 41>>,                      \* (c ? f : g)(x)
+       <<102, 115, 91, 105, 32, 43, 32, 49, 93, 40, 120, 41>>,                             \* fs[i + 1](x)
+       <<120, 46, 102, 40, 121, 32, 43, 32, 122, 44, 32, 45, 119, 41>>,                    \* x.f(y + z, -w)
+       <<123, 97, 58, 32, 120, 32, 43, 32, 121, 125, 46, 97>>,                             \* {a: x + y}.a
+       <<91, 120, 58, 32, 45, 121, 44, 32, 40, 122, 41, 58, 32, 33, 119, 93>>,             \* [x: -y, (z): !w]
+       <<120, 32, 63, 32, 121, 32, 63, 32, 49, 32, 58, 32, 50, 32, 58, 32, 122, 46, 102, 40, 41>>,   \* x ? y ? 1 : 2 : z.f()
+       <<40, 40, 120, 41, 41, 46, 102, 40, 40, 121, 41, 41>>,                              \* ((x)).f((y))
+       <<45, 120, 46, 102, 40, 41, 32, 43, 32, 33, 121, 91, 48, 93>>,                      \* -x.f() + !y[0]
+       <<120, 46, 102, 46, 103, 40, 49, 41, 46, 104>>,                                     \* x.f.g(1).h
+       <<34, 72, 34, 46, 108, 101, 110, 40, 41>>, <<97, 46, 98, 46, 99, 40, 49, 44, 32, 50, 41>>>>     \* "H".len()  a.b.c(1, 2)
+SugarUniverse == Concat([n \in 1..P_SIZE |-> SugarN(n)]) \o SugarShapes
+
 \* a universe element: [ops |-> table (sequence of Op), opsid |-> id or "", src]
 Universe ==
   CASE P_MODE = "lex" -> Prod2(LexSets, LexUniverse, LAMBDA id, s : [opsid |-> id, ops |-> OpSet(id), src |-> s])
     [] P_MODE = "toks" -> Prod2(<<"builtin", "custom">>, TokUniverse, LAMBDA id, s : [opsid |-> id, ops |-> OpSet(id), src |-> s])
+    [] P_MODE = "sugar" -> Map1S(SugarUniverse, LAMBDA s : [opsid |-> "builtin", ops |-> BuiltinOps, src |-> s])
     [] P_MODE = "prec" -> Prod2(PrecTables, Shapes2, LAMBDA t, s : [opsid |-> "", ops |-> t, src |-> s])
                             \o Prod2(UnTables, ShapesU, LAMBDA t, s : [opsid |-> "", ops |-> t, src |-> s])
                             \o Prod2(<<"builtin", "overlap">>, NAShapes, LAMBDA id, s : [opsid |-> id, ops |-> OpSet(id), src |-> s])
@@ -155,6 +180,10 @@ PrecedenceHonoured ==
       [] ex = "right" -> st.pr.ok /\ st.pr.node.k = "bin" /\ st.pr.node.op = st.lx.toks[2].k /\ st.pr.node.r.k = "bin"
       [] ex = "reject" -> ~st.pr.ok
       [] OTHER -> TRUE
+(* ---- C10 on the specification ---- *)
+DesugarsToCore == ParseOk => IsCore(Desugar(st.pr.node))
+DesugarIdempotent == ParseOk => Desugar(Desugar(st.pr.node)) = Desugar(st.pr.node)
+DesugarKeepsOrder == ParseOk => OperandsInSourceOrder(st.pr.node)
 \* C12: parser work (calls of eat) is bounded by a polynomial in the number of tokens
 EatsBounded == IsCase /\ st.lx.ok => st.pr.st.eats <= 4 * (Len(st.lx.toks) + 1) * (Len(st.lx.toks) + 1)
 =============================================================================
